@@ -177,8 +177,94 @@ def extract():
     if not page_map:
         raise ValueError("entity_list_page_map not found in Documentation.__init__")
     links = extract_links(classes, pclasses)
-    return dict(cu=cu, ty=ty, bd=bd, has_prune=has_prune, pins=pins, srcs=srcs, containers=containers, chain=chain,
+    more = extract_round3(classes, pclasses)
+    return dict(more=more, cu=cu, ty=ty, bd=bd, has_prune=has_prune, pins=pins, srcs=srcs, containers=containers, chain=chain,
                 prune_loop=prune_loop, ranklist=ranklist_src, page_map=page_map, page_map_extra=extra, links=links)
+
+
+def extract_round3(classes, pclasses):
+    """entity kinds no `prune()` knows: where namelists get their pages (`Project._fortran_file` collects them when
+    a file is read), which `routines` are scanned, which page templates have a namelist section, which classes are
+    `visible` from their construction on, and pins of the correlate steps that move entities between lists before
+    `prune()` runs (`FortranCommon.correlate` takes the member variables out of the parent's `variables`,
+    `FortranType.correlate` adds the inherited components / bindings, `FortranNamelist.correlate` resolves the
+    variable names)."""
+    import re
+
+    ff = _method(pclasses, "Project", "_fortran_file")
+    check = [n for n in ast.walk(ff) if isinstance(n, ast.FunctionDef) and n.name == "namelist_check"]
+    if len(check) != 1 or len(check[0].args.args) != 1:
+        raise ValueError("Project._fortran_file: helper namelist_check(entity) not found")
+    arg = check[0].args.args[0].arg
+    if norm_src(check[0]) != f"self.namelists.extend(getattr({arg}, 'namelists', []))":
+        raise ValueError("namelist_check does not have the shape self.namelists.extend(getattr(entity, 'namelists', []))")
+    collect = []
+    for st in ff.body:
+        if not (isinstance(st, ast.For) and isinstance(st.iter, ast.Attribute) and ast.unparse(st.iter.value) == "new_file"):
+            if "namelist_check(" in ast.unparse(st) and not isinstance(st, ast.FunctionDef):
+                raise ValueError("namelist_check called outside a `for x in new_file.<list>` loop: " + ast.unparse(st)[:80])
+            continue
+        var = ast.unparse(st.target)
+        direct = routines = False
+        for b in st.body:
+            src = ast.unparse(b)
+            if src == f"namelist_check({var})":
+                direct = True
+            elif (isinstance(b, ast.For) and ast.unparse(b.iter) == f"{var}.routines"
+                  and [ast.unparse(x) for x in b.body] == [f"namelist_check({ast.unparse(b.target)})"]):
+                routines = True
+            elif "namelist_check(" in src:
+                raise ValueError("unrecognised use of namelist_check: " + src[:80])
+        collect.append((st.iter.attr, direct, routines))
+    if not any(d or r for _, d, r in collect):
+        raise ValueError("Project._fortran_file collects no namelists")
+    rt = _method(classes, "FortranBase", "routines")
+    calls = [n for n in ast.walk(rt) if isinstance(n, ast.Call) and ast.unparse(n.func) == "self.iterator"]
+    if len(calls) != 1 or not all(isinstance(a, ast.Constant) for a in calls[0].args):
+        raise ValueError("FortranBase.routines is not self.iterator(<literals>)")
+    routines_lists = [a.value for a in calls[0].args]
+    if _defining(classes, "routines") != ["FortranBase"]:
+        raise ValueError("`routines` is overridden: " + str(_defining(classes, "routines")))
+    # page templates with a namelist section: `{% for <x> in <obj>.namelists %}` + namelist_panel
+    sections = []
+    for t in sorted((common.REPO / "ford/templates").glob("*_page.html")):
+        txt = t.read_text()
+        if re.search(r"\{%-?\s*for\s+\w+\s+in\s+\w+\.namelists\s*-?%\}", txt) and "namelist_panel" in txt:
+            sections.append(t.name)
+    if not sections:
+        raise ValueError("no page template renders namelists")
+    # classes whose `_initialize` / `__init__` ends with `self.visible = True` unconditionally
+    vis = []
+    for cname, node in classes.items():
+        for m in node.body:
+            if isinstance(m, ast.FunctionDef) and m.name in ("_initialize", "__init__"):
+                if any(isinstance(x, ast.Assign) and ast.unparse(x) == "self.visible = True" for x in m.body):
+                    vis.append(cname)
+    # `visible = True` set by a `correlate` (i.e. before `prune()` decides): (class, iterable of the loop it stands in)
+    vis_corr = []
+    for cname, node in classes.items():
+        for m in node.body:
+            if isinstance(m, ast.FunctionDef) and m.name == "correlate":
+                for loop in ast.walk(m):
+                    if isinstance(loop, ast.For):
+                        var = ast.unparse(loop.target)
+                        if any(ast.unparse(x) == f"{var}.visible = True" for x in loop.body):
+                            vis_corr.append((cname, ast.unparse(loop.iter)))
+                for x in m.body:
+                    if ast.unparse(x).endswith(".visible = True") and not isinstance(x, ast.For):
+                        vis_corr.append((cname, ast.unparse(x)))
+    fns = {
+        "FortranCommon.correlate": _method(classes, "FortranCommon", "correlate"),
+        "FortranNamelist.correlate": _method(classes, "FortranNamelist", "correlate"),
+        "FortranType.correlate": _method(classes, "FortranType", "correlate"),
+    }
+    tc = norm_src(fns["FortranType.correlate"])
+    # the two tests that decide which members an extending type inherits
+    inherit_tests = [x for x in ("var.permission == 'public'", "bp.permission == 'private'") if x in tc]
+    return dict(collect=collect, routines=routines_lists, sections=sections, visible_at_init=sorted(set(vis)),
+                visible_in_correlate=vis_corr,
+                pins={k: pin(v) for k, v in fns.items()}, srcs={k: norm_src(v) for k, v in fns.items()},
+                inherit_tests=inherit_tests)
 
 
 def _defining(classes, mname):
@@ -308,6 +394,23 @@ def translate():
         L.append("/- " + k + ":\n" + lk["srcs"][k].replace("-/", "- /").replace("/-", "/ -") + "\n-/")
         L.append(f"/-- sha256[:16] of the normalised source (ast.unparse, docstring removed) of {k}"
                  + (" (empty: the function does not exist)" if k == "_has_written_page" else "") + " -/")
+        L.append(f"def {nm}Pin : String := {lean_str(v)}")
+    mo = t["more"]
+    L.append("")
+    L.append("/-! ### entity kinds no `prune()` knows; entities moved between lists by `correlate` -/")
+    L.append("/-- Project._fortran_file: (list of the new file, namelists of its members collected, namelists of the members' `routines` collected) -/")
+    L.append("def namelistCollect : List (String × Bool × Bool) := ["
+             + ", ".join(f"({lean_str(a)}, {'true' if b else 'false'}, {'true' if c else 'false'})" for a, b, c in mo["collect"]) + "]")
+    L.append(f"/-- FortranBase.routines: the lists it iterates -/\ndef routinesLists : List String := {lean_list(mo['routines'])}")
+    L.append(f"/-- page templates that render `<entity>.namelists` with `namelist_panel` -/\ndef namelistSections : List String := {lean_list(mo['sections'])}")
+    L.append(f"/-- classes whose constructor sets `visible = True` -/\ndef visibleAtInit : List String := {lean_list(mo['visible_at_init'])}")
+    L.append(f"/-- `visible = True` set inside a `correlate` method (before `prune()`): (class, loop iterable) -/\ndef visibleInCorrelate : List (String × String) := {lean_pairs(mo['visible_in_correlate'])}")
+    L.append(f"/-- the permission tests of FortranType.correlate that decide which members are inherited -/\ndef inheritTests : List String := {lean_list(mo['inherit_tests'])}")
+    for k, v in mo["pins"].items():
+        nm = {"FortranCommon.correlate": "commonCorrelate", "FortranNamelist.correlate": "namelistCorrelate",
+              "FortranType.correlate": "typeCorrelate"}[k]
+        L.append("/- " + k + ":\n" + mo["srcs"][k].replace("-/", "- /").replace("/-", "/ -") + "\n-/")
+        L.append(f"/-- sha256[:16] of the normalised source (ast.unparse, docstring removed) of {k} -/")
         L.append(f"def {nm}Pin : String := {lean_str(v)}")
     L += ["", "end Ford.Generated.C05", ""]
     common.write_if_changed(common.LEAN / "FordModel" / "Generated" / "C05.lean", "\n".join(L))
